@@ -41,7 +41,7 @@ REQUIRED_CLASSES = ['staged-base', 'staged-base:units-only', 'staged-base:nodes'
                     'violating-modification-of-import:constant',
                     'base-immutability-checked', 'remote-immutability-checked', 'custom-unit-defined',
                     'prefix-sibling-present']
-REQUIRED_MONITORS = ['alias_programs_compared', 'programs_compared', 'must_fail_checked', 'base_snapshots_compared', 'remote_snapshots_compared',
+REQUIRED_MONITORS = ['remote_file_rewritten_at_the_same_path', 'alias_programs_compared', 'programs_compared', 'must_fail_checked', 'base_snapshots_compared', 'remote_snapshots_compared',
                      'imported_constraints_compared', 'step_guard_runs']
 ASSUMPTIONS = [
     'unit factors: hand-written exact SI table (see dip_ref_c18) plus the $units of the generated text',
@@ -72,6 +72,8 @@ def setup():
 def teardown(ctx):
     g = ctx['guard']
     g.close()
+    if ctx.get('remote_dir'):
+        shutil.rmtree(ctx['remote_dir'], ignore_errors=True)
     return {'monitors': {}, 'max_steps_accepted_call': {'max': g.max_ok}, 'step_budget_floor': {'events': g.floor}}
 
 
@@ -346,11 +348,15 @@ def run_case(case, ctx):
         prog = case['prog']
         files = {}
         if prog.get('remote') is not None:
-            tmp = tempfile.mkdtemp(prefix='c17_')
-            path = os.path.join(tmp, 'r.dip')
+            # ONE path per worker, rewritten for every program: a remote file edited between two parses of one process is the
+            # same name and path with another content (anything remembered about it from an earlier parse is stale)
+            if not ctx.get('remote_dir') or not os.path.isdir(ctx['remote_dir']):
+                ctx['remote_dir'] = tempfile.mkdtemp(prefix='c17_')
+            path = os.path.join(ctx['remote_dir'], 'r.dip')
             with open(path, 'w') as f:
                 f.write(R.render(prog['remote']))
             files['r'] = path
+            ctx['remote_rewrites'] = ctx.get('remote_rewrites', 0) + 1
         out = _run(case, ctx, files)
     finally:
         ctx['keep'] = []
@@ -359,6 +365,8 @@ def run_case(case, ctx):
         leak = ctx['hyg'].check_restore()
     out['monitors']['table_leaks_restored'] = 1 if leak else 0
     out['monitors']['step_guard_runs'] = ctx['guard'].take_runs()
+    if files.get('r'):
+        out['monitors']['remote_file_rewritten_at_the_same_path'] = 1
     return out
 
 
